@@ -298,8 +298,10 @@ class Verdict:
         ev = {"property_id": self.prop, "tier": self.tier, "seed": self.seed, "level": self.level,
               "coverage": self.cov, "assumptions": self.assumptions, "wall_s": round(wall, 2),
               "violations": len(self.violations)}
-        os.makedirs(os.path.join(ROOT, "evidence"), exist_ok=True)
-        json.dump(ev, open(os.path.join(ROOT, "evidence", f"{self.prop}.json"), "w"), indent=1, default=str)
+        # (a run of tools/modelmut.py -- the model swapped for a mutated one on purpose -- is no evidence about the code)
+        evdir = os.path.join(ROOT, "work", "modelmut-evidence") if os.environ.get("WV_MUTATED_MODEL") else os.path.join(ROOT, "evidence")
+        os.makedirs(evdir, exist_ok=True)
+        json.dump(ev, open(os.path.join(evdir, f"{self.prop}.json"), "w"), indent=1, default=str)
         for l in self.known_lines:
             print(l)
         for path, no_input in self.violations[:10]:
